@@ -99,8 +99,10 @@ impl WalRecovery {
         // Get all log files in order
         let log_files = self.get_log_files()?;
 
-        // Determine the minimum sequence number to process
-        let min_sequence = checkpoint.as_ref().map_or(0, |cp| cp.log_sequence);
+        // Determine the minimum sequence number to process.
+        // A checkpoint does not persist a snapshot of the graph, so the log files that
+        // precede it are still the only copy of their records: none may be skipped.
+        let min_sequence = 0;
 
         if checkpoint.is_some() {
             tracing::info!(
